@@ -6,6 +6,7 @@
   Helper lemmas: `Manticore/Lemmas/Smb{Basics,Marshal,Unmarshal,Mirror,Std}.lean`.
 -/
 import Manticore.Model.SmbCmd
+import Manticore.Model.SmbPinned
 import Manticore.Model.SmbCodecs
 import Manticore.Gen.SmbCommands
 import Manticore.Lemmas.SmbMirror
@@ -49,6 +50,14 @@ theorem known_roundtrip_findings :
        (.andxNotConsumed, "TreeConnectAndxResponse"), (.readsWholeBuffer, "TreeConnectRequest"),
        (.conditionalField, "WriteAndCloseRequest"), (.andxNotConsumed, "WriteAndxRequest"),
        (.andxNotConsumed, "WriteAndxResponse"), (.conditionalField, "WriteRawRequest")] := by decide +kernel
+
+/-- **every buffer is sized by the field documented to size it**: the (command, buffer, length) and
+    (command, list, count) relations the regenerated unmarshal programs rely on are exactly the pinned
+    ones of `Spec/SmbRelations.lean` (50 relations).  A decoder that starts reading a buffer with another
+    count field makes this fail, and the round-trip specification — which uses the pinned table —
+    then exhibits an assignment that no longer survives. -/
+theorem length_relations_pinned :
+    extractedRelations commands = Manticore.Spec.SmbRelations.relations := by decide +kernel
 
 theorem command_count : commands.length = 115 := by decide +kernel
 
